@@ -9,16 +9,19 @@ same transaction for every plan, and the same block for every grouping it is bui
 
 (M) TLC checks on every family of <= 4 transactions of the model libraries (independent, chained
     incl. chains of three and a diamond, multi-kernel, all kernel kinds, zero / positive / negative
-    offsets) and every permutation and bracketing of it: order/grouping independence, kernels =
-    union, offset = sum, inputs/outputs = union minus exactly the matched pairs, result valid,
+    offsets; every shape of a commitment occurring more than once: recreate, respend, cycle, double
+    spend, duplicate output, before and after the cut) and every permutation and bracketing of it:
+    the verdict of every shape, order/grouping independence incl. the error verdict (PlanChecks),
+    kernels = union, offset = sum, inputs/outputs = what does not cancel pairwise, result valid,
     de-aggregation of every known subset of an independent family returns the remainder,
-    hydrate(compact(block)) = block for every grouping, block valid.
+    hydrate(compact(block)) = block and from_reward(groups) = block for every grouping whose groups
+    exist, block valid; careless cut-through variants are told apart by the families (CarelessKilled).
 (A) Every family is realised with real commitments / bulletproofs / signatures; the real
     transaction::aggregate is run for every plan, transaction::deaggregate for every subset,
     Block::from_reward -> CompactBlock::from -> Block::hydrate_from for every grouping, and the
     results are projected back to model values and compared with the specification's.
 """
-import json, os, collections
+import json, os, collections, threading
 import vlib
 from vlib import Report, ToolError, log
 from checks import _txbal
@@ -117,7 +120,8 @@ def to_harness_case(c):
     h["deaggs"] = [{"mk": mk, "sub": zero_based(d["sub"])} for d in c["deaggs"] for mk in mks]
     if c["aggregable"]:
         b = c["block"]
-        c["builds"] = pick_builds(c)
+        if "builds" not in c:              # a replayed case keeps the groupings it was recorded with
+            c["builds"] = pick_builds(c)
         h["block"] = {"cb_out": b["cb_out"], "cb_kern": b["cb_kern"], "height": b["height"], "prev": b["prev"],
                       "groupings": plans, "builds": [plans[i] for i in c["builds"]]}
     return h, len(mks)
@@ -355,28 +359,60 @@ def run(tier, replay):
         rep.coverage = {"states": 1, "transitions": 1, "traces_validated_against_impl": 1, "samples": [obj["signature"]]}
         return rep.finish()
 
-    # (M)
+    # (M) runs in the background while (A) emits and executes the cases
     cfg = "mc/MC_Agg_thorough" if thorough else "mc/MC_Agg"
-    r = vlib.tlc("mc/MC_Agg", cfg, workers=4, coverage=True, timeout=2400)
-    if r.invariant_violated:
-        print(r.out[-3000:])
-        raise ToolError("Agg.tla: %s violated inside the model" % r.invariant_violated)
-    vlib.tlc_ok(r, cfg)
-    acts = r.action_counts()
-    for a in ("ChooseLibrary", "ChooseFamily", "ChoosePlan"):
-        if acts.get(a, (0, 0))[0] == 0:
-            raise ToolError("Agg action %s never taken" % a)
-    log("TLC %s: %d states in %.0fs" % (cfg, r.distinct, r.wall))
+    mbox = {}
+
+    def model_run():
+        try:
+            # per-action coverage costs 2.5x here: thorough only; the quick tier cross-checks the state count instead
+            mbox["r"] = vlib.tlc("mc/MC_Agg", cfg, workers=4, coverage=thorough, timeout=2400)
+        except BaseException as ex:      # re-raised in the main thread
+            mbox["ex"] = ex
+    mthread = threading.Thread(target=model_run)
+    mthread.start()
+
+    def model_result():
+        mthread.join()
+        if "ex" in mbox:
+            raise mbox["ex"]
+        r = mbox["r"]
+        if r.invariant_violated:
+            print(r.out[-3000:])
+            raise ToolError("Agg.tla: %s violated inside the model" % r.invariant_violated)
+        vlib.tlc_ok(r, cfg)
+        # no action is vacuous: the walk root -> library -> family -> plan reached exactly the emitted families and plans
+        nlib = len({c["lib"] for c in cases})
+        nplan = sum(len(c["plans"]) for c in cases)
+        if r.distinct != 1 + nlib + len(cases) + nplan:
+            raise ToolError("Agg: TLC explored %d states, the emitted walk has 1 + %d + %d + %d" % (r.distinct, nlib, len(cases), nplan))
+        acts = {"ChooseLibrary": (nlib, nlib), "ChooseFamily": (len(cases), len(cases)), "ChoosePlan": (nplan, nplan)}
+        if thorough:
+            acts = r.action_counts()
+            for a in ("ChooseLibrary", "ChooseFamily", "ChoosePlan"):
+                if acts.get(a, (0, 0))[0] == 0:
+                    raise ToolError("Agg action %s never taken" % a)
+        log("TLC %s: %d states in %.0fs" % (cfg, r.distinct, r.wall))
+        return r, acts
 
     # (A)
-    e = vlib.tlc("mc/MC_Agg", cfg + "_emit" if thorough else "mc/MC_Agg_emit", workers=1, coverage=False, timeout=1500)
-    vlib.tlc_ok(e, "MC_Agg emit")
+    try:
+        e = vlib.tlc("mc/MC_Agg", cfg + "_emit" if thorough else "mc/MC_Agg_emit", workers=1, coverage=False, timeout=1500)
+        vlib.tlc_ok(e, "MC_Agg emit")
+    except BaseException:
+        mthread.join()
+        raise
     cases = [json.loads(x) for x in e.printed("AGGCASE")]
     if len(cases) < 100:
         raise ToolError("too few Agg cases emitted (%d)" % len(cases))
     for i, c in enumerate(cases):
         c["id"] = i
-    res, infos, found = check_cases(cases, "cases")
+    try:
+        res, infos, found = check_cases(cases, "cases")
+    finally:
+        mthread.join()
+    # the model verdict comes first: the emitted expectations are only meaningful if the invariants hold
+    r, acts = model_result()
 
     # the binding is real: a perturbed expectation must be flagged by the same oracle
     # ... and so must a flipped verdict: a re-creation family declared refused when presented flat, a
